@@ -1116,30 +1116,57 @@ class Inliner:
     HASH_WRITERS = ("insert", "remove", "clear", "entry", "extract_if", "retain", "drain", "get_mut", "iter_mut", "values_mut", "remove_entry",
                     "or_insert", "or_default", "and_modify", "or_insert_with", "take", "replace", "extend")
 
-    def _effectful(self, fty):
-        """Does calling this closure / fn item do anything but compute a value?"""
+    INT_REFMUT = ("&mut usize", "&mut isize", "&mut u8", "&mut u16", "&mut u32", "&mut u64", "&mut i32", "&mut i64", "&mut bool")
+
+    def _effectful(self, fty, acc=None):
+        """Does calling this closure / fn item do anything but compute a value?
+        With `acc` (a set): stores through a captured `&mut <integer>` are not counted; the indices of those captures are added
+        to `acc` and the caller checks at the closure's creation site that each is a borrow of a plain local (a tally)."""
         path = fty.get("closure") or fty.get("fndef")
         if path is None:
             return True
-        cache = self.__dict__.setdefault("_eff_cache", {})
+        cache = self.__dict__.setdefault("_eff_cache" if acc is None else "_eff_cache_acc", {})
         if path in cache:
+            if acc is not None:
+                acc.update(cache[path][1])
+                return cache[path][0]
             return cache[path]
         f = self.facts.fn(path)
         if f is None:
-            cache[path] = False     # foreign fn item (Option::is_some, Clone::clone of a Copy key ...): library code, assumption A2
+            cache[path] = False if acc is None else (False, set())    # foreign fn item (Option::is_some, Clone::clone of a Copy key ...): library code, assumption A2
             return False
-        cache[path] = True          # cut recursion pessimistically
+        cache[path] = True if acc is None else (True, set())         # cut recursion pessimistically
         saved = self._cur
         sub = Inliner(self.facts, self.keep)
-        sub._eff_cache = cache
+        sub._eff_cache = self.__dict__.setdefault("_eff_cache", {})
         g = sub.inline(f)
         self._cur = saved
         eff = False
+        tallies = set()
+        envdef = {}      # local -> index of the captured variable it is a copy of
+        if acc is not None:
+            for blk in g.blocks:
+                for st in blk["stmts"]:
+                    if st["k"] == "assign" and not st["dst"]["p"] and st["rv"].get("k") == "use" and st["rv"]["op"].get("k") in ("copy", "move"):
+                        pl = st["rv"]["op"]["pl"]
+                        if pl["l"] == 1 and len(pl["p"]) in (1, 2) and isinstance(pl["p"][-1], dict) and "f" in pl["p"][-1] and str(pl["p"][-1].get("of", "")).startswith("closure:") \
+                                and all(e == "*" for e in pl["p"][:-1]):
+                            envdef.setdefault(st["dst"]["l"], set()).add(pl["p"][-1]["f"])
+        ndefs = {}
+        for blk in g.blocks:
+            for st in blk["stmts"]:
+                if st["k"] == "assign" and not st["dst"]["p"]:
+                    ndefs[st["dst"]["l"]] = ndefs.get(st["dst"]["l"], 0) + 1
         for blk in g.blocks:
             if blk["cleanup"]:
                 continue
             for st in blk["stmts"]:
                 if st["k"] == "assign" and any(e == "*" for e in st["dst"]["p"]) and not st.get("macro"):
+                    l = st["dst"]["l"]
+                    if acc is not None and st["dst"]["p"] == ["*"] and l in envdef and len(envdef[l]) == 1 and ndefs.get(l) == 1 \
+                            and (g.locals[l].get("ty") or {}).get("s") in self.INT_REFMUT:
+                        tallies |= envdef[l]
+                        continue
                     eff = True
             t = blk["term"]
             if t["k"] == "drop" and (t["ty"].get("dp") or t["ty"].get("adt") in self.HANDLES or (t["ty"].get("adt") or "").startswith("core::cell::Ref")):
@@ -1159,8 +1186,42 @@ class Inliner:
                     eff = True   # user trait method on a generic parameter
             elif t["k"] == "call":
                 eff = True       # indirect call
+        if acc is not None:
+            cache[path] = (eff, tallies)
+            acc.update(tallies)
+            return eff
         cache[path] = eff
         return eff
+
+    def _only_tallies(self, ty, a, locals_, blocks):
+        """An effectful closure whose only effects are stores through captured `&mut <integer>` that, where the closure is
+        created, borrow plain integer locals of the enclosing function (`n += 1` inside a `retain` predicate)."""
+        if ty.get("k") != "closure":
+            return False
+        acc = set()
+        if self._effectful(ty, acc) or not acc:
+            return False
+        if a.get("k") not in ("copy", "move") or a["pl"]["p"]:
+            return False
+
+        def defs(l):
+            return [st for blk in blocks for st in blk["stmts"] if st["k"] == "assign" and st["dst"]["l"] == l and not st["dst"]["p"]]
+        ds = defs(a["pl"]["l"])
+        while len(ds) == 1 and ds[0]["rv"].get("k") == "use" and ds[0]["rv"]["op"].get("k") in ("copy", "move") and not ds[0]["rv"]["op"]["pl"]["p"]:
+            ds = defs(ds[0]["rv"]["op"]["pl"]["l"])
+        if len(ds) != 1 or ds[0]["rv"].get("k") != "agg" or ds[0]["rv"].get("ak") != "closure":
+            return False
+        ops = ds[0]["rv"]["ops"]
+        for i in acc:
+            if i >= len(ops) or ops[i].get("k") not in ("copy", "move") or ops[i]["pl"]["p"]:
+                return False
+            rd = defs(ops[i]["pl"]["l"])
+            if len(rd) != 1 or rd[0]["rv"].get("k") != "ref" or rd[0]["rv"]["pl"]["p"]:
+                return False
+            tgt = locals_[rd[0]["rv"]["pl"]["l"]]
+            if ("&mut " + str((tgt.get("ty") or {}).get("s"))) not in self.INT_REFMUT:
+                return False
+        return True
 
     def _writes_own_fields(self, fn):
         """Does this method assign to a field of `*self` (other than through calls)?"""
@@ -1479,7 +1540,8 @@ class Inliner:
             return
         for a in t["args"]:
             ty = self._op_ty(a, locals_)
-            if ty is not None and ty.get("k") in ("closure", "fndef") and self.facts.fn(ty.get("closure") or ty.get("fndef") or "") is not None and self._effectful(ty):
+            if ty is not None and ty.get("k") in ("closure", "fndef") and self.facts.fn(ty.get("closure") or ty.get("fndef") or "") is not None and self._effectful(ty) \
+                    and not self._only_tallies(ty, a, locals_, blocks):
                 self.lazy_unexpanded.append((self._cur, b, "`%s` is given a closure with side effects" % d))
                 return
 
